@@ -15,7 +15,7 @@ LEXER_BOUNDED = ('sub-lexer contracts found_ok for lex_spaces/lex_tabs/lex_newli
 PROPS = {
     'C01': dict(
         level='proof',
-        verus=['patterns', 'lexing', 'edit_distance'],
+        verus=['span', 'patterns', 'lexing', 'edit_distance', 'mask'],
         kani_quick=['lexing.whitespace_5', 'jsdoc.parse_inline_tag_4', 'jsdoc.parse_inline_tag_5', 'jsdoc.mark_inline_tags_5'],
         kani_thorough=['lexing.whitespace_5', 'lexing.whitespace_8', 'lexing.hex_5', 'lexing.hostname_4', 'lexing.url_4', 'lexing.email_4',
                        'jsdoc.parse_inline_tag_4', 'jsdoc.parse_inline_tag_5', 'jsdoc.parse_inline_tag_6', 'jsdoc.mark_inline_tags_5'],
@@ -32,7 +32,7 @@ PROPS = {
     ),
     'C02': dict(
         level='proof',
-        verus=['lexing', 'number'],
+        verus=['lexing', 'number', 'mask'],
         kani_quick=['lexing.whitespace_5'],
         kani_thorough=['lexing.whitespace_5', 'lexing.whitespace_8', 'lexing.hex_5', 'lexing.hostname_4', 'lexing.url_4', 'lexing.email_4'],
         unverified=[
@@ -45,7 +45,7 @@ PROPS = {
     ),
     'C03': dict(
         level='proof',
-        verus=['suggestion', 'patterns'],
+        verus=['span', 'suggestion', 'patterns'],
         kani_quick=[], kani_thorough=[],
         unverified=[
             'that each of the ~290 rules reports a span with start <= end <= text length (match_to_lint / lint bodies are not under contract); run_on_chunk only guarantees them a non-empty in-bounds sub-slice of the chunk',
